@@ -37,6 +37,12 @@ func RenderTokens(s []any) (string, error) {
 		}
 		if k == "Str" {
 			sb.WriteString(QuoteStr(v))
+		} else if k == "Num" {
+			txt, ok := proj.DecText(tt[1])
+			if !ok {
+				return "", fmt.Errorf("bad Num token %v", t)
+			}
+			sb.WriteString(txt)
 		} else {
 			sb.WriteString(v)
 		}
